@@ -77,3 +77,14 @@ func (p *Packet) QFI() (uint8, bool) {
 	}
 	return 0, false
 }
+
+// PSC returns the first octet of the PDU Session Container (PDU type in the high nibble, QMP / SNP / spare below) and
+// the number of 4-octet units the extension header occupies.
+func (p *Packet) PSC() (first uint8, units int, ok bool) {
+	for i, t := range p.ExtTypes {
+		if t == 0x85 && len(p.Exts[i]) >= 2 {
+			return p.Exts[i][0], (len(p.Exts[i]) + 2) / 4, true
+		}
+	}
+	return 0, 0, false
+}
